@@ -181,6 +181,26 @@ def ignored_parameter_configs(max_n, l_max=3, deformed=False):
     return out
 
 
+def accepted_outside_family(l_max=3, deformed=False):
+    """Size tuples outside the DESIGN §3 table (and outside the thin / ignored-parameter extensions) with all
+    sides <= l_max: the constructors accept most of them although the result need not be a valid code
+    (C01 does not enumerate them).  Only the structural statement C02 looks at them; a constructor that
+    refuses such a size is not a violation there."""
+    out = []
+    for name in CLASSES:
+        if name == 'Color666PlanarCode':
+            continue
+        dim = 2 if name in CLASSES_2D else 3
+        for s in itertools.product(range(1, l_max + 1), repeat=dim):
+            if in_family(name, list(s)) or (name in THIN_CLASSES and min(s) == 1 and max(s) > 1):
+                continue
+            out.append({'cls': name, 'size': list(s), 'deformation': None})
+            if deformed:
+                for d in deformations(name):
+                    out.append({'cls': name, 'size': list(s), 'deformation': d})
+    return out
+
+
 def cfg_label(cfg):
     d = cfg.get('deformation')
     return '%s%s%s%s' % (cfg['cls'], tuple(cfg['size']), '' if not d else '+%s%s' % (d[0], d[1] or ''),
